@@ -322,7 +322,7 @@ def check_contraction_labels(prog, rep):
             continue
         l = e['$l']
         g = {(t, pol) for t, pol, _ in guards_at(f, c)}
-        src = iteration_source(f, l)
+        src = iteration_source(f, l, at=c)
         srct = unparse(src) if src is not None else ''
         if isinstance(src, ast.Name):
             srct = ' '.join(unparse(v) for v in local_defs(f).get(src.id, [])) or srct
@@ -350,7 +350,7 @@ def check_contraction_labels(prog, rep):
             continue
         L_, a_ = e['$L'], e['$a']
         r = pmatch('self._split_leg_label(%s[%s], self.legs[%s].nlegs)' % (L_, a_, a_), e['$$rhs'])
-        it = iteration_source(f, a_)
+        it = iteration_source(f, a_, at=st)
         itt = unparse(it) if it is not None else ''
         desc = bool(it is not None and (
             pmatch('sorted($$x, reverse=True)', it) or pmatch('reversed($$x)', it) or
